@@ -392,12 +392,16 @@ BOUNDARY_EXPECT = [
     "B5 panic CapacityOverflow len_same=1 cap_same=1",
     "B6 destroyed=1 len_after_destroy={maxm1} refilled=1 len={max} contains_old=0",
     "B7 len={max} cap={max} monotone=1 failed_at=-1 growths_ge1=1",
+    "B8 extra_create=panic:CapacityOverflow dup_of_first=0 len={max}",
+    "B9 ok cap={max} within=1",
 ]
 BOUNDARY_WHAT = {
     "B1": "with_capacity beyond 2^24 must panic", "B2": "with_capacity(n) permits exactly n create_within_capacity without reallocation",
     "B3": "create below the limit succeeds and grows strictly within the limit", "B4": "create always succeeds below 16,777,216 entities; capacity monotone and >= len",
     "B5": "create at the limit panics without changing len/capacity", "B6": "a position freed at the limit is reusable",
     "B7": "growth from the empty world reaches the limit",
+    "B8": "a create beyond the limit must be refused; whatever it does, it must not return a handle that is already alive",
+    "B9": "with_capacity(2^24) is legal and gives exactly that capacity",
 }
 
 
@@ -432,7 +436,7 @@ def run_boundary(cfgname):
                                                "what": f"{BOUNDARY_WHAT[tag]}: expected `{e}`, but the process running the real code died there (exit {p.returncode}: {p.stderr[-200:].strip()})", "no_shrink": True})
                     break
                 if g != e and not res.get("crashed"):
-                    res["oracle_hits"].append({"property": "C12", "seq": "boundary", "line": 0, "op": "rt boundary", "class": "boundary-" + tag,
+                    res["oracle_hits"].append({"property": "C08" if (tag == "B8" and g and "dup_of_first=1" in g) else "C12", "seq": "boundary", "line": 0, "op": "rt boundary", "class": "boundary-" + tag,
                                                "what": f"{BOUNDARY_WHAT[tag]}: expected `{e}`, observed `{g}`", "no_shrink": True})
             res["wall_s"] = round(time.time() - t0, 2)
         json.dump(res, open(jf, "w"))
@@ -462,6 +466,10 @@ def run_shapes(cfgname):
             if not res.get("crashed") and not (l1 and "all_or_nothing=1" in l1 and "errors=0" in l1):
                 res["oracle_hits"].append({"property": "C10", "seq": "shapes", "line": 0, "op": "rt shapes", "class": "shapes-L1", "no_shrink": True,
                                            "what": f"after a runtime borrow guard was leaked with mem::forget, a create that panics must leave the archetype unchanged and one that returns must have added a whole entity (harness/rt/src/shapes.rs leaked_guard); observed `{l1}`"})
+            l2 = next((x for x in got if x.startswith("L2 ")), None)
+            if not res.get("crashed") and l2 != "L2 loop_ok=1 visited=5 left=2/1 consistent=1 errors=0":
+                res["oracle_hits"].append({"property": "C07", "seq": "shapes", "line": 0, "op": "rt shapes", "class": "shapes-L2", "no_shrink": True,
+                                           "what": f"ecs_iter_destroy! over two archetypes after a column guard was leaked with mem::forget must visit all 5 entities, destroy exactly the 2 flagged ones and leave the archetypes consistent (harness/rt/src/shapes.rs leaked_guard_iter_destroy); observed `{l2}`"})
             tags = [f"S{i}" for i in range(1, 8)]
             for tag in tags:
                 g = next((x for x in got if x.startswith(tag + " ")), None)
@@ -971,9 +979,12 @@ def check_rt(prop, tier, seed):
     for c in cfgs:
         for pr in profiles:
             streams.append(run_stream(c, pr, seed, t["nseq"], t["maxops"]))
-    if prop == "C12":
+    if prop in ("C12", "C08"):
         streams.append(run_boundary("rel-ew3"))
-    if prop in ("C04", "C10"):
+    if prop in ("C10", "C17"):
+        # the generation-overflow panic with event logs on (events without wrapping_version)
+        streams.append(run_stream("dbg-e", "overflow", seed, t["nseq"], t["maxops"]))
+    if prop in ("C04", "C10", "C07"):
         for c in QUICK_CONFIGS:
             streams.append(run_shapes(c))
     if prop == "C17":
@@ -984,7 +995,7 @@ def check_rt(prop, tier, seed):
         nmax = 6 if tier == "thorough" else 4
         for c in QUICK_CONFIGS:
             streams.append(run_stream(c, f"decs{nmax}", 0, 0, 0, args=["decs", str(nmax)]))
-    for c in QUICK_CONFIGS:
+    for c in sorted(set(cfgs) | set(QUICK_CONFIGS)):
         cs = run_corpus(c)
         if cs is not None:
             streams.append(cs)
